@@ -228,7 +228,8 @@ def run_query(B, recv, op, extra=None):
             r = target.getElementsByAttr(op[1], op[2], **kw)
         elif k == 'vals':
             vs = op[2]
-            r = target.getElementsWithAttrValues(op[1], set(vs) if len(vs) % 2 else list(vs), **kw)
+            # C07 (extra given): a list, so that an index-backed answer has a reproducible order
+            r = target.getElementsWithAttrValues(op[1], set(vs) if (len(vs) % 2 and extra is None) else list(vs), **kw)
         elif k == 'custom':
             r = target.getElementsCustomFilter(py_pred(op[1]), **kw)
         elif k == 'first':
@@ -467,7 +468,24 @@ def rand_field(rng):
     return f
 
 
-def rand_value_for(rng, f):
+def doc_values(flat, f):
+    f = f.lower()
+    if flat is None:
+        return []
+    if f == 'tagname':
+        return [d['tag'] for d in flat.E]
+    if f == 'text':
+        return [d['text'] for d in flat.E if d['text']]
+    return [d['attrs'][f] for d in flat.E if f in d['attrs']]
+
+
+def rand_value_for(rng, f, flat=None):
+    have = doc_values(flat, f)
+    if have and rng.random() < 0.65:
+        v = rng.choice(have)
+        if rng.random() < 0.1:
+            v = v.swapcase()
+        return v
     f = f.lower()
     if f == 'tagname':
         return rng.choice(TAGS)
@@ -480,7 +498,19 @@ def rand_value_for(rng, f):
     return rng.choice(VALUES + [ABSENT])
 
 
-def rand_sub_for(rng, f):
+def rand_sub_for(rng, f, flat=None):
+    have = doc_values(flat, f)
+    if have and rng.random() < 0.75:
+        v = rng.choice(have)
+        i = rng.randrange(len(v))
+        j = rng.randint(i + 1, len(v))
+        v = v[i:j]
+        r = rng.random()
+        if r < 0.3:
+            v = v.swapcase()
+        elif r < 0.4:
+            v = v.upper()
+        return v
     f = f.lower()
     if f == 'text':
         return rng.choice(['l', 'o W', 'ab', 'AB', 'hello', 'H', 'q'])
@@ -489,7 +519,7 @@ def rand_sub_for(rng, f):
     return rng.choice(['a', 'b', 'A', '1', 'v', ' ', 'q', 'e', 'n'])
 
 
-def rand_crit(rng, used):
+def rand_crit(rng, used, flat=None):
     for _ in range(10):
         f = rand_field(rng)
         op = rng.choice(('eq', 'eq', 'ne', 'contains', 'icontains', 'in'))
@@ -497,14 +527,14 @@ def rand_crit(rng, used):
             continue
         used.add((f, op))
         if op in ('eq', 'ne'):
-            return [op, f, rand_value_for(rng, f)]
+            return [op, f, rand_value_for(rng, f, flat)]
         if op in ('contains', 'icontains'):
-            return [op, f, rand_sub_for(rng, f)]
-        return [op, f] + [rand_value_for(rng, f) for _ in range(rng.randint(0, 3))]
+            return [op, f, rand_sub_for(rng, f, flat)]
+        return [op, f] + [rand_value_for(rng, f, flat) for _ in range(rng.randint(0, 3))]
     return ['eq', 'tagname', 'div']
 
 
-def rand_find_arg(rng, used):
+def rand_find_arg(rng, used, flat=None):
     for _ in range(10):
         f = rng.choice(ATTRS + ['id', 'name', 'tagname', 'text', ABSENT])
         mode = rng.choice(('', '', '__contains', '__icontains'))
@@ -519,8 +549,8 @@ def rand_find_arg(rng, used):
         many = rng.random() < 0.45
         gen = rand_sub_for if mode else rand_value_for
         if many:
-            return [key, 'many'] + [gen(rng, f) for _ in range(rng.randint(0, 3))]
-        return [key, 'one', gen(rng, f)]
+            return [key, 'many'] + [gen(rng, f, flat) for _ in range(rng.randint(0, 3))]
+        return [key, 'one', gen(rng, f, flat)]
     return ['tagname', 'one', 'div']
 
 
@@ -558,18 +588,91 @@ def rand_op(rng, recv, flat):
         return ['cls', rand_class_query(rng)]
     if k == 'attr':
         a = rng.choice(ATTRS + ['id', 'name', ABSENT])
-        return ['attr', a, rand_value_for(rng, a)]
+        return ['attr', a, rand_value_for(rng, a, flat)]
     if k == 'vals':
         a = rng.choice(ATTRS + ['id', 'name'])
-        return ['vals', a, [rand_value_for(rng, a) for _ in range(rng.randint(0, 3))]]
+        return ['vals', a, [rand_value_for(rng, a, flat) for _ in range(rng.randint(0, 3))]]
     if k in ('custom', 'first'):
         return [k, rand_pred(rng)]
     if k == 'find':
         used = set()
-        return ['find', [rand_find_arg(rng, used) for _ in range(rng.choice((0, 1, 1, 1, 2, 2, 3)))]]
+        return ['find', [rand_find_arg(rng, used, flat) for _ in range(rng.choice((0, 1, 1, 1, 2, 2, 3)))]]
     used = set()
     modes = ('and', 'or', 'alland', 'allor') if recv[0] == 'C' else ('and', 'or')
-    return ['filter', rng.choice(modes), [rand_crit(rng, used) for _ in range(rng.choice((0, 1, 1, 2, 2, 3)))], rng.random() < 0.5]
+    return ['filter', rng.choice(modes), [rand_crit(rng, used, flat) for _ in range(rng.choice((0, 1, 1, 2, 2, 3)))], rng.random() < 0.5]
+
+
+TIGHT = ['a', 'ab', 'abc', 'AB', 'b', 'bA']
+
+
+def tight_doc(rng, n):
+    """Small documents whose values are dense in substring / case / equality relations."""
+    nodes = []
+    for i in range(n):
+        attrs = []
+        for a in ('id', 'name', 'title', 'lang'):
+            if rng.random() < 0.6:
+                attrs.append([a, rng.choice(TIGHT)])
+        rng.shuffle(attrs)
+        classes = rng.sample(['a', 'b', 'ab'], rng.choice((0, 1, 2, 3)))
+        text = [rng.choice(TIGHT + ['']), rng.choice(TIGHT + ['']) if rng.random() < 0.3 else '']
+        nodes.append([rng.choice(('div', 'span', 'b')), attrs, classes, text, []])
+    for i in range(1, n):
+        nodes[rng.randrange(i)][4].append(nodes[i])
+    return nodes[0]
+
+
+def tight_queries(rng, flat, k):
+    out = []
+    pick = lambda: rng.choice(TIGHT)
+    some = lambda: [pick() for _ in range(rng.randint(0, 3))]
+    for _ in range(k):
+        recv = rand_recv(rng, flat.n)
+        a = rng.choice(('id', 'name', 'title', 'lang'))
+        kind = rng.choice(('attr', 'vals', 'name', 'id', 'cls', 'find', 'find', 'find', 'filter', 'filter', 'filter', 'custom', 'first'))
+        if kind == 'attr':
+            op = ['attr', a, pick()]
+        elif kind == 'vals':
+            op = ['vals', a, some()]
+        elif kind in ('name', 'id'):
+            op = [kind, pick()]
+        elif kind == 'cls':
+            op = ['cls', ' '.join(rng.choice(('a', 'b', 'ab')) for _ in range(rng.choice((1, 2, 3))))]
+        elif kind in ('custom', 'first'):
+            op = [kind, rng.choice((['textsub', pick()], ['hascls', rng.choice(('a', 'b', 'ab'))], ['hasattr', a],
+                                    ['and', ['hasattr', a], ['not', ['textsub', pick()]]]))]
+        elif kind == 'find':
+            recv = ['P']
+            args, used = [], set()
+            for _ in range(rng.choice((1, 1, 2))):
+                f = rng.choice(('id', 'name', 'title', 'lang', 'text', 'tagname'))
+                mode = rng.choice(('', '__contains', '__icontains')) if f != 'tagname' else ''
+                if f + mode in used:
+                    continue
+                used.add(f + mode)
+                if f == 'tagname':
+                    args.append([f, 'one', rng.choice(('div', 'span'))] if rng.random() < 0.5 else [f, 'many', 'div', 'b'])
+                elif rng.random() < 0.5:
+                    args.append([f + mode, 'one', pick()])
+                else:
+                    args.append([f + mode, 'many'] + some())
+            op = ['find', args]
+        else:
+            crits, used = [], set()
+            for _ in range(rng.choice((1, 1, 2))):
+                f = rng.choice(('id', 'name', 'title', 'lang', 'text'))
+                o = rng.choice(('eq', 'ne', 'contains', 'icontains', 'in'))
+                if (f, o) in used:
+                    continue
+                used.add((f, o))
+                crits.append([o, f] + (some() if o == 'in' else [pick()]))
+            modes = ('and', 'or', 'alland', 'allor') if recv[0] == 'C' else ('and', 'or')
+            if recv[0] == 'P':
+                recv = ['P']
+            op = ['filter', rng.choice(modes), crits, rng.random() < 0.5]
+        if not is_na(recv, op):
+            out.append([recv, op])
+    return out
 
 
 def battery(flat):
@@ -667,6 +770,9 @@ class Check(PropCheck):
         n = 6000 if tier == 'thorough' else 700
         for _ in range(n):
             yield Case(self.random_case(rng, tier), 'random')
+        for _ in range(5000 if tier == 'thorough' else 600):
+            doc = tight_doc(rng, rng.randint(2, 7))
+            yield Case({'doc': doc, 'queries': tight_queries(rng, Flat(doc), 40)}, 'random-tight-vocabulary')
 
     def random_case(self, rng, tier='quick'):
         r = rng.random()
